@@ -166,6 +166,14 @@ func (m *Model) Run(inputs Tensors) (Tensors, error) {
 		tensors[parameterName] = parameterTensor
 	}
 
+	// An initializer that is also a graph input only is the default for that input, a tensor
+	// given by the caller takes precedence.
+	for _, inputName := range m.InputNames() {
+		if inputTensor, ok := inputs[inputName]; ok {
+			tensors[inputName] = inputTensor
+		}
+	}
+
 	for _, n := range m.mp.Graph.GetNode() {
 		op, err := m.GetOperator(n.GetOpType())
 		if err != nil {
@@ -213,13 +221,13 @@ func (m *Model) applyOp(op ops.Operator, n *onnx.NodeProto, tensors Tensors) err
 // by the onnx.Shapes.
 func (m *Model) validateShapes(inputTensors Tensors) error {
 	for name, shapeExpected := range m.InputShapes() {
-		// If the input is a parameter, the user does not have to provide a tensor for it.
-		if _, ok := m.parameters[name]; ok {
-			continue
-		}
-
 		tensor, ok := inputTensors[name]
 		if !ok {
+			// If the input is a parameter, the user does not have to provide a tensor for it.
+			if _, isParameter := m.parameters[name]; isParameter {
+				continue
+			}
+
 			return ErrModel("tensor: %v not found", name)
 		}
 
